@@ -245,6 +245,11 @@ PROPS = {
     },
     'C15': {
         'units': ['c15', 'c16'],
+        'kani': [
+            {'package': 'vk-lsp', 'harness': 'open_full_change_close', 'obligation': 'C15.kani.open_full_change_close', 'bounded': True,
+             'bound': 'two documents, one concrete history open/open/full-text change/close/change-after-close on the extracted real Workspace methods', 'tier': 'thorough',
+             'timeout': 900, 'pre_extract': ('contracts/c15_kani.krs', 'kani/lsp/src/gen.rs'), 'fallback_for': ['c15']},
+        ],
         'level': 'other',
         'obligation_prefixes': ['C15.', 'C16.p2u.'],
         'technique': 'Verus contracts on the real Workspace::{open,close,change} over an abstract document-store view, folded over arbitrary event histories; modular on the C16 contract of position_to_utf8',
